@@ -28,7 +28,7 @@ META = {
     "assumptions": ["generator programs are sequences of <= 3 operations from {yield row, tuple yield, multi-line yield, block, "
                     "block_if, multiblock, nested blocks}; expected paths of every operation are written by hand",
                     "ctx: config from stdin (one uncovered row), no implicit defaults, no filter ACL, exclusive ACL on",
-                    "vendor huawei"],
+                    "vendor huawei", "7 (quick) / 8 ACL texts per generator incl. the empty ACL, an indented ACL literal and a differently written parent rule matching the same block header"],
     "outside": ["ref generators", "annotations", "acl_safe", "Entire/JSON generators (C19/C13)"],
     "bounds": {},
 }
